@@ -67,9 +67,11 @@ def from_notes(path):
     return [change[:300], need[:400]]
 
 
-def collect():
+def collect(sel=()):
     for key in ids():
         pid, x = key.split('/')
+        if sel and key not in sel and pid not in sel:
+            continue
         src = source_dir(pid, x)
         dst = os.path.join(V, 'seeded', pid, x)
         if not os.path.isdir(src) or not os.path.exists(os.path.join(src, 'patch.diff')) or not os.path.exists(os.path.join(src, 'NOTES.md')):
@@ -83,7 +85,7 @@ def collect():
         if rebased:
             shutil.copy(os.path.join(src, 'patch.diff'), os.path.join(dst, 'patch.original.diff'))
         for f in os.listdir(src):
-            if f.startswith('demo_') or f == 'NOTES.md':
+            if (f.startswith('demo_') and f.endswith('.txt')) or f == 'NOTES.md':
                 shutil.copy(os.path.join(src, f), os.path.join(dst, f))
         meta_p = os.path.join(dst, 'meta.json')
         meta = json.load(open(meta_p)) if os.path.exists(meta_p) else {}
@@ -174,7 +176,7 @@ def run_matrix(sel):
 
 if __name__ == '__main__':
     if len(sys.argv) > 1 and sys.argv[1] == 'collect':
-        collect()
+        collect(set(sys.argv[2:]))
     elif len(sys.argv) > 1 and sys.argv[1] == 'matrix':
         run_matrix(set(sys.argv[2:]))
     else:
